@@ -1297,6 +1297,10 @@ func (vc *VC) doAlloc(st *State, x *ssa.Alloc) {
 		vc.zeroStruct(st, ty, r)
 		vc.vals[x] = r
 		vc.addrs[x] = &Addr{Kind: "obj", Ref: r, Typ: ty}
+		if x.Comment != "" && !strings.Contains(x.Comment, "$") && x.Comment != "complit" && x.Comment != "varargs" {
+			// a named local of struct type: contracts can name it (its storage is this object)
+			vc.namedObjs[x.Comment] = Val{T: r, S: "Int", Ty: ty}
+		}
 		return
 	}
 	st.cells[x] = vc.zeroOf(ty)
